@@ -38,6 +38,14 @@ def _transform(root: str, mode: str) -> int:
                 tree = stress_refactor.Invert().visit(tree)
             elif mode == "kw":
                 tree = stress_refactor.Keywords(tree).visit(tree)
+            elif mode == "mulswap":
+                tree = stress_refactor.MulSwap().visit(tree)
+            elif mode == "argtemp":
+                tree = stress_refactor.ArgTemp().visit(tree)
+            elif mode == "unelse":
+                tree = stress_refactor.UnElse().visit(tree)
+            elif mode == "unpack":
+                tree = stress_refactor.Unpack().visit(tree)
             out = ast.unparse(ast.fix_missing_locations(tree))
             compile(out, p, "exec")
             open(p, "w").write(out)
@@ -45,7 +53,7 @@ def _transform(root: str, mode: str) -> int:
     return n
 
 
-def run_stress(prop: str, repo: str, modes=("alpha", "nest", "retvar", "shuffle", "invert", "kw")):
+def run_stress(prop: str, repo: str, modes=("alpha", "nest", "retvar", "shuffle", "invert", "kw", "mulswap", "argtemp", "unelse", "unpack")):
     from run import COPY  # noqa: F401
     results = []
     base = subprocess.run([os.path.join(VERIF, "check"), prop, "--repo", repo, "--no-evidence", "--replay-dir", tempfile.mkdtemp(prefix="pq-r-")],
